@@ -17,24 +17,29 @@ def sched(fn, T, **kw):
     d.update(kw)
     return d
 
+# thorough tier: the same harnesses with the data bound raised from 4 to 6 retained values
+D6 = {"verifMaxBuf": 6}
+
 CHECKS = {
     "C01": {
         "explanation": "Inductive steps: Put, Get (synchronous paths) and NewConsumer executed symbolically from an arbitrary valid Buffer state (<= 4 retained values, symbolic 62-bit offset, <= 2 consumers with symbolic committed offsets and deltas) refine one step of the FIFO specification; a Get blocked in the asynchronous path is atomic w.r.t. a concurrent Commit/Rollback (T=18); two racing Puts, one carrying a batch of 1100 values, never interleave their values (T=10).",
         "quick": [seq("Harness_C01_get_step"), seq("Harness_C01_put_step"), seq("Harness_C01_put_cancelled"), seq("Harness_C01_newconsumer_step"), sched("Harness_C02_get_atomic", 18),
                   sched("Harness_C01_put_batches_contiguous", 10, settle_feas=1)],
-        "thorough": [],
+        "thorough": [seq("Harness_C01_get_step", define=D6), seq("Harness_C01_put_step", define=D6), seq("Harness_C01_put_cancelled", define=D6), seq("Harness_C01_newconsumer_step", define=D6),
+                     sched("Harness_C01_put_batches_contiguous", 10, settle_feas=1, define={"verifBigBatch": 4200}, timeout_ms=600000)],
         "assumptions": ["representation invariant of verifArbitraryBuffer (harness/ac_buffer_support.go)", "absolute offsets below 2^62"],
     },
     "C02": {
         "explanation": "Commit/Rollback steps from arbitrary states, rollback replay windows of <= 3 reads, package Range with a callback that stops/panics/forces a Commit failure at a symbolic index, Buffer.Range over <= 4 values.",
         "quick": [seq("Harness_C02_commit_rollback_step"), seq("Harness_C02_rollback_replays"), seq("Harness_C02_range_pkg"), seq("Harness_C02_buffer_range"), seq("Harness_C02_buffer_range_put"), sched("Harness_C02_get_atomic", 18)],
-        "thorough": [],
+        "thorough": [seq("Harness_C02_commit_rollback_step", define=D6), seq("Harness_C02_rollback_replays", define=D6, timeout_ms=600000), seq("Harness_C02_range_pkg", define=D6, timeout_ms=600000),
+                     seq("Harness_C02_buffer_range", define=D6, timeout_ms=600000), seq("Harness_C02_buffer_range_put", define=D6, timeout_ms=600000)],
         "assumptions": ["representation invariant of verifArbitraryBuffer"],
     },
     "C03": {
         "explanation": "DefaultCleaner for every size >= 0 and <= 6 offsets over all 64-bit ints; FixedBufferCleaner for all 64-bit max/target/size; cleanupLogic from arbitrary states under the default, fixed and an arbitrary cleaner; Slice/Size/Diff observers.",
         "quick": [seq("Harness_C03_default_cleaner"), seq("Harness_C03_cleanup_default"), seq("Harness_C03_cleanup_arbitrary"), seq("Harness_C03_fixed_cleaner"), seq("Harness_C03_fixed_step"), seq("Harness_C03_observers")],
-        "thorough": [],
+        "thorough": [seq("Harness_C03_cleanup_default", define=D6, timeout_ms=600000), seq("Harness_C03_cleanup_arbitrary", define=D6, timeout_ms=600000), seq("Harness_C03_fixed_step", define=D6), seq("Harness_C03_observers", define=D6)],
         "assumptions": ["at most 6 consumer offsets for the pure cleaner, <= 2 consumers and <= 4 values for cleanupLogic"],
     },
     "C05": {
@@ -63,16 +68,17 @@ CHECKS = {
         "assumptions": ["negative Add during a send is unrolled for |delta| <= 3"],
     },
     "C09": {
-        "explanation": "Exclusive: a work function that parks forever on key A does not delay a blocking Call on key B (every interleaving, T=26).",
+        "explanation": "Exclusive: a work function that parks forever on key A does not delay a blocking Call on key B (every interleaving, T=26). Thorough: two async calls on one key with their two runner goroutines under every interleaving (T=34): work functions never overlap, each call is answered by an execution begun after it, outcomes carry the work result, no per-key state remains.",
         "quick": [sched("Harness_C09_excl_other_key", 26, timeout_ms=300000)],
-        "thorough": [],
-        "assumptions": ["same-key non-overlap under full interleaving of two callers is outside the encoder's reach (measured blow-up), see DESIGN.md"],
+        "thorough": [sched("Harness_C09_excl_same_key", 34, unwind_fn="call=2", timeout_ms=400000)],
+        "assumptions": ["at most two calls per key in one harness (quick: one per key); three or more racing callers are covered only by the C10 thorough harness's fixed shape"],
     },
     "C10": {
-        "explanation": "Exclusive: a single call whose work function never resolves yields errResolveNotCalled, and no per-key state remains at quiescence (every interleaving of caller and runner, T=22).",
+        "explanation": "Exclusive: a single call whose work function never resolves yields errResolveNotCalled, and no per-key state remains at quiescence (every interleaving of caller and runner, T=22). Thorough: two async calls on one key (T=34) and a Start that coalesces with a later CallAsync behind a running execution (T=36): every call receives exactly one outcome from an execution begun after it, one execution per coalesced batch, no per-key state remains, nothing is left blocked; the same shape with a coalesced work function that never resolves: the call is answered with errResolveNotCalled whichever goroutine of the batch executes it.",
         "quick": [sched("Harness_C10_resolve_not_called", 22)],
-        "thorough": [],
-        "assumptions": ["coalescing of several callers is outside the encoder's reach (measured blow-up), see DESIGN.md"],
+        "thorough": [sched("Harness_C09_excl_same_key", 34, unwind_fn="call=2", timeout_ms=400000), sched("Harness_C10_excl_start_then_call", 36, unwind_fn="call=2", timeout_ms=400000),
+                     sched("Harness_C10_excl_start_then_unresolved", 36, unwind_fn="call=2", timeout_ms=400000)],
+        "assumptions": ["the Start/CallAsync harness assumes the first execution is already under way when the second Start registers (verifAssume)", "at most three calls per key"],
     },
     "C12": {
         "explanation": "Closed-state calls on Buffer, consumer and Channel from arbitrary valid states (sequential); goroutine-leak / termination harnesses for Channel, WaitCond and CombineContext under every interleaving.",
